@@ -14,6 +14,7 @@ import (
 // VerifHarnesses lists the harness entry points of this package (used by the native replay test).
 var VerifHarnesses = map[string]func(){
 	"VerifC07Single": VerifC07Single,
+	"VerifC07Batch":  VerifC07Batch,
 }
 
 // vSigned is a minimal SignedData: a one-byte signing root and an opaque signature id.
@@ -199,4 +200,83 @@ func root0(g *vGhost, v int, set []core.ParSignedData, stepRoot byte) byte {
 		return d.Root
 	}
 	return stepRoot
+}
+
+// VerifC07Batch: pre single-entry stores for validators A and B, then ONE external batch with an entry for each
+// validator (shares, roots, signature ids symbolic). Whatever happens to the other entry of the batch (accepted,
+// duplicate, rejected as equivocation), a validator whose accepted shares reach the threshold with this batch must be
+// triggered exactly once, with exactly its matching shares; a validator that does not reach it must not be.
+func VerifC07Batch() {
+	n := vrt.Param("n")
+	pre := vrt.Param("pre") // number of preliminary single-entry stores (alternating A, B, A, B, ...)
+	t := (2*n + 2) / 3
+	dl := &vDeadliner{status: core.DeadlineScheduled, ch: make(chan core.Duty, 1)}
+	db := NewMemDB(t, dl, MemDBMetadata{slotDuration: 12})
+	duty := core.Duty{Slot: 7, Type: core.DutyAttester}
+	ctx := context.Background()
+	fire := &vFire{}
+	db.SubscribeThreshold(func(_ context.Context, _ core.Duty, set map[core.PubKey][]core.ParSignedData) error {
+		fire.calls++
+		for pk, sigs := range set {
+			v := 0
+			if pk == vPkB {
+				v = 1
+			}
+			fire.cnt[v]++
+			fire.set[v] = sigs
+		}
+		return nil
+	})
+	g := &vGhost{}
+	// oracle for one entry: returns (expectErr, expectFire) and updates the ghost store
+	apply := func(v, idx int, root byte, sig uint64) (bool, bool) {
+		if g.has[v][idx] {
+			return g.root[v][idx] != root || g.sig[v][idx] != sig, false
+		}
+		g.has[v][idx], g.root[v][idx], g.sig[v][idx] = true, root, sig
+		return false, g.count(v, root) == t
+	}
+	draw := func(name string) (int, byte, uint64) {
+		idx := int(vrt.Byte(name + "_share"))
+		root := vrt.Byte(name + "_root")
+		sig := uint64(vrt.Byte(name + "_sig"))
+		vrt.Assume(idx >= 1 && idx <= n && root < 3)
+		return idx, root, sig
+	}
+	for s := 0; s < pre; s++ {
+		v, pk := s%2, vPkA
+		if v == 1 {
+			pk = vPkB
+		}
+		idx, root, sig := draw(vrt.N("pre", s))
+		fire.cnt = [2]int{}
+		err := db.StoreExternal(ctx, duty, core.ParSignedDataSet{pk: core.ParSignedData{SignedData: vSigned{Root: root, Sig: sig}, ShareIdx: idx}})
+		ee, ef := apply(v, idx, root, sig)
+		vrt.Assume((err != nil) == ee && (fire.cnt[v] == 1) == ef) // single-entry behaviour is VerifC07Single's subject
+	}
+	ia, ra, sa := draw("a")
+	ib, rb, sb := draw("b")
+	fire.cnt = [2]int{}
+	err := db.StoreExternal(ctx, duty, core.ParSignedDataSet{
+		vPkA: core.ParSignedData{SignedData: vSigned{Root: ra, Sig: sa}, ShareIdx: ia},
+		vPkB: core.ParSignedData{SignedData: vSigned{Root: rb, Sig: sb}, ShareIdx: ib},
+	})
+	errA, fireA := apply(0, ia, ra, sa)
+	errB, fireB := apply(1, ib, rb, sb)
+	vrt.Assert("the batch reports an error exactly when one of its entries equivocates", (err != nil) == (errA || errB))
+	vrt.AssertKF("validator A is triggered exactly when it reaches the threshold with this batch, whatever happens to B's entry",
+		(fire.cnt[0] == 1) == fireA && fire.cnt[0] <= 1, "C07-b", fireA && fire.cnt[0] == 0 && errB)
+	vrt.AssertKF("validator B is triggered exactly when it reaches the threshold with this batch, whatever happens to A's entry",
+		(fire.cnt[1] == 1) == fireB && fire.cnt[1] <= 1, "C07-b", fireB && fire.cnt[1] == 0 && errA)
+	if fire.cnt[0] == 1 {
+		vCheckSet(g, 0, fire.set[0], t, ra)
+		vrt.Reach("A triggered")
+	}
+	if fire.cnt[1] == 1 {
+		vCheckSet(g, 1, fire.set[1], t, rb)
+	}
+	if fireA && errB {
+		vrt.Reach("A reaches threshold while B's entry is rejected")
+	}
+	vrt.Reach("end")
 }
